@@ -36,8 +36,19 @@ SeedSpec3 ==      \* two backgrounds sharing a staterror (one of them with an EM
             [name |-> 1, data |-> Rs(<<10, 0>>), mods |-> <<Mod(21, STATERROR, Rs(<<3, 3>>), <<>>), Mod(7, NORMSYS, <<RN(9, 10)>>, <<RN(6, 5)>>)>>],
             [name |-> 3, data |-> Rs(<<20, 25>>), mods |-> <<Mod(21, STATERROR, Rs(<<4, 4>>), <<>>), Mod(7, NORMSYS, <<RN(9, 10)>>, <<RN(6, 5)>>)>>] >>] >>,
      pars |-> <<>>, poi |-> MU]
+SeedSpec4 ==      \* two channels, each with its own staterror of different relative size: after a channel rename the order of the
+                  \* staterror NAMES no longer matches the order of the channels they act on
+    [channels |-> <<
+        [name |-> 1, samples |-> <<
+            [name |-> 2, data |-> Rs(<<6, 9>>), mods |-> <<Mod(MU, NORMFACTOR, <<>>, <<>>)>>],
+            [name |-> 1, data |-> Rs(<<40, 30>>), mods |-> <<Mod(21, STATERROR, Rs(<<4, 6>>), <<>>)>>] >>],
+        [name |-> 2, samples |-> <<
+            [name |-> 2, data |-> Rs(<<3, 5>>), mods |-> <<Mod(MU, NORMFACTOR, <<>>, <<>>)>>],
+            [name |-> 1, data |-> Rs(<<50, 60>>), mods |-> <<Mod(22, STATERROR, Rs(<<10, 3>>), <<>>)>>] >>] >>,
+     pars |-> <<>>, poi |-> MU]
 SeedSpec(k) ==
   CASE k = 3 -> SeedSpec3
+    [] k = 4 -> SeedSpec4
     [] k = 1 ->   \* two mergeable backgrounds (identical modifier sets), a second channel with a shapesys
     [channels |-> <<
         [name |-> 1, samples |-> <<
